@@ -415,7 +415,36 @@ class Fn:
                 if new != live[bi]:
                     live[bi] = new
                     changed = True
-        self._live = [l_ | always for l_ in live]
+        # the analyses read a value through the chain of moves / copies / references / wrappers it went through (`_20 = move _58` and then
+        # a question about _20 is answered from what is known about _58): a local stays live as long as anything derived from it is
+        derived = defaultdict(set)
+        for b in self.blocks:
+            for s_ in b['stmts']:
+                if s_['k'] == 'assign' and not s_['pl']['p']:
+                    acc = set()
+                    mentions(s_['rv'], acc)
+                    for y in acc:
+                        if y != s_['pl']['l']:
+                            derived[s_['pl']['l']].add(y)
+            t = b['term']
+            if t and t['k'] == 'call' and not t['dest']['p']:
+                acc = set()
+                mentions(t['args'], acc)
+                for y in acc:
+                    if y != t['dest']['l']:
+                        derived[t['dest']['l']].add(y)
+        out_live = []
+        for l_ in live:
+            cur = set(l_) | always
+            work = list(cur)
+            while work:
+                x = work.pop()
+                for y in derived.get(x, ()):
+                    if y not in cur:
+                        cur.add(y)
+                        work.append(y)
+            out_live.append(cur)
+        self._live = out_live
         return self._live
 
     def local_name(self, l):
